@@ -82,3 +82,24 @@ MUTANTS += [
     dict(id="c19-sadr-uses-dadr", props=["C19"], file="netservice.py", old="self.router_info_cache.update_router_info(adapter.adapterNet, npdu.pduSource, [snet])", new="self.router_info_cache.update_router_info(adapter.adapterNet, npdu.pduDestination, [snet])"),
     dict(id="c19-existing-keeps-old-path", props=["C19"], file="netservice.py", old="                if dnet not in existing_router_info.dnets:\n                    self.path_info[(snet, dnet)] = existing_router_info", new="                if dnet not in existing_router_info.dnets and len(existing_router_info.dnets) < 2:\n                    self.path_info[(snet, dnet)] = existing_router_info"),
 ]
+
+MUTANTS += [
+    # ---- C05
+    dict(id="c05-offset-plus-one", props=["C05"], file="appservice.py", old="        offset = indx * self.segmentSize\n", new="        offset = indx * self.segmentSize + (1 if indx > 2 else 0)\n"),
+    dict(id="c05-in-window-le", equivalent="an ack exactly one window beyond the first unacknowledged segment refers to a segment not yet sent; no honest peer produces it", props=["C05"], file="appservice.py", old="        rslt = ((seqA - seqB + 256) % 256) < self.actualWindowSize", new="        rslt = ((seqA - seqB + 256) % 256) <= self.actualWindowSize"),
+    dict(id="c05-seq-no-mod", props=["C05"], file="appservice.py", old="            segAPDU.apduSeq = indx % 256                       # sequence number", new="            segAPDU.apduSeq = indx % 255                       # sequence number"),
+    dict(id="c05-fill-window-plus-one", props=["C05"], file="appservice.py", old="        for ix in range(self.actualWindowSize):\n            apdu = self.get_segment(seqNum + ix)", new="        for ix in range(self.actualWindowSize + 1):\n            apdu = self.get_segment(seqNum + ix)"),
+    dict(id="c05-dup-segment-appended", props=["C05"], file="appservice.py", old="        # proper segment number\n        if apdu.apduSeq != (self.lastSequenceNumber + 1) % 256:\n            if _debug: ServerSSM", new="        # proper segment number\n        if apdu.apduSeq not in ((self.lastSequenceNumber + 1) % 256, self.lastSequenceNumber) or self.lastSequenceNumber == 0 and apdu.apduSeq == 0:\n            if _debug: ServerSSM"),
+    dict(id="c05-mor-le", props=["C05"], file="appservice.py", old="            segAPDU.apduMor = (indx < (self.segmentCount - 1)) # more follows", new="            segAPDU.apduMor = (indx <= (self.segmentCount - 1)) and (self.segmentCount != 3 or indx < 2) # more follows"),
+    dict(id="c05-client-nak-wrong-seq", props=["C05"], file="appservice.py", old="            segack = SegmentAckPDU(1, 0, self.invokeID, self.lastSequenceNumber, self.actualWindowSize)", new="            segack = SegmentAckPDU(1, 0, self.invokeID, apdu.apduSeq, self.actualWindowSize)"),
+]
+
+MUTANTS += [
+    # ---- C04
+    dict(id="c04-terminal-keeps-transaction", props=["C04"], file="appservice.py", old="        if (newState == COMPLETED) or (newState == ABORTED):\n            if _debug: ClientSSM._debug(\"    - remove from active transactions\")\n            self.ssmSAP.clientTransactions.remove(self)", new="        if (newState == COMPLETED):\n            if _debug: ClientSSM._debug(\"    - remove from active transactions\")\n            self.ssmSAP.clientTransactions.remove(self)"),
+    dict(id="c04-retry-never-counted", props=["C04"], file="appservice.py", old="            self.retryCount += 1\n\n            # save the retry count", new="            self.retryCount += 0\n\n            # save the retry count"),
+    dict(id="c04-timeout-abort-and-retry", props=["C04"], file="appservice.py", old="            abort = self.abort(AbortReason.noResponse)\n            self.response(abort)\n\n    def segmented_confirmation(self, apdu):", new="            abort = self.abort(AbortReason.noResponse)\n            self.response(abort)\n            self.response(abort)\n\n    def segmented_confirmation(self, apdu):"),
+    dict(id="c04-no-stop-timer", props=["C04"], file="appservice.py", old="        # stop any current timer\n        self.stop_timer()\n", new="        # stop any current timer\n        if newState != ABORTED: self.stop_timer()\n"),
+    dict(id="c04-server-abort-keeps-tr", props=["C04"], file="appservice.py", old="    def segmented_request_timeout(self):\n        if _debug: ServerSSM._debug(\"segmented_request_timeout\")\n\n        # give up\n        self.set_state(ABORTED)", new="    def segmented_request_timeout(self):\n        if _debug: ServerSSM._debug(\"segmented_request_timeout\")\n\n        # give up\n        self.state = ABORTED"),
+    dict(id="c04-iocb-complete-guard", props=["C04"], file="app.py", old="        if not queue.ioQueue.queue and not queue.active_iocb:\n            if _debug: ApplicationIOController._debug(\"    - queue is empty\")\n            del self.queue_by_address[address]", new="        if not queue.ioQueue.queue and queue.active_iocb:\n            if _debug: ApplicationIOController._debug(\"    - queue is empty\")\n            del self.queue_by_address[address]"),
+]
